@@ -7,6 +7,7 @@ import AriadneModel.Generated.Tables
 import AriadneModel.Model.WsClient
 import AriadneModel.Model.WsClientOT
 import AriadneModel.Model.SubscriptionMethod
+import AriadneModel.Model.WsClientHeap
 import AriadneModel.Spec.GraphqlTransportWs
 import AriadneModel.Spec.WsConnect
 
@@ -30,6 +31,10 @@ partial def decPV (j : Json) : Except String PV := do
     let xs ← arg.getArr?
     pure (.list (← xs.toList.mapM decPV))
   | "dict" => pure (.dict (← decPVKvs arg))
+  | "foreign" => match arg with
+    | .null => pure (.foreign none)
+    | v => do pure (.foreign (some (← dec (v.getObjValD "j"))))
+  | "modelPy" => pure (.modelPy (← decPVKvs arg))
   | t => throw s!"PV tag {t}"
 where
   decPVKvs (j : Json) : Except String (List (String × PV)) := do
@@ -100,6 +105,48 @@ def encEvents (t : Types) (evs : List Ev) : List Json :=
     | .close :: rest => Json.arr #["close"] :: go i rest
   go 0 evs
 
+def optNatField (j : Json) (k : String) : Except String (Option Nat) :=
+  match j.getObjVal? k with
+  | .ok .null => pure none
+  | .ok v => do pure (some (← v.getNat?))
+  | .error _ => pure none
+
+def decVars (j : Json) : Except String (Option (List (String × PV))) :=
+  match j.getObjVal? "vars" with
+  | .ok .null => pure none
+  | .ok v => do pure (some (← decPV.decPVKvs v))
+  | .error _ => pure none
+
+open Ariadne.WsHeap in
+def decStep (j : Json) : Except String Step := do
+  let query ← fieldStr j "query"
+  let opName ← optStrField j "opName"
+  let extraHeaders ← optNatField j "extra"
+  let kwargs ← decKvs (← field j "kwargs")
+  let opId ← fieldStr j "opId"
+  let call : HCall := { query, opName, extraHeaders, kwargs, opId }
+  let frames ← (← (← field j "frames").getArr?).toList.mapM decFrame
+  let vars ← decVars j
+  let refuse ← optStrField j "refuse"
+  let take ← optNatField j "take"
+  pure { call, vars, frames, refuse, take }
+
+open Ariadne.WsHeap in
+def encObs (t : Types) : Option Obs → Json
+  | none => Json.null
+  | some o => Json.mkObj [
+      ("events", Json.arr (encEvents t o.events).toArray),
+      ("outcome", match o.outcome with | some oc => encOutcome oc | none => Json.mkObj [("o", "abandoned")]),
+      ("release", match o.release with | .notOpened => "not-opened" | .sync => "sync" | .deferred => "deferred")]
+
+open Ariadne.WsHeap in
+/-- the client under test: variant, executor over the extracted tables, table for rendering -/
+def variantOf (client : String) (tracer : Bool) :
+    Variant × (Cfg → Option (List (String × PV)) → List Frame → Trace) × List (String × String) :=
+  match client with
+  | "ot" => (.ot tracer, WsClientOT.run tracer Tables.wsTypesAsyncOT Tables.wsSubprotocolAsyncOT, Tables.wsTypesAsyncOT)
+  | _ => (.plain, WsClient.run Tables.wsTypesAsync Tables.wsSubprotocolAsync, Tables.wsTypesAsync)
+
 def handleLine (j : Json) : Except String Json := do
   let op ← fieldStr j "op"
   match op with
@@ -109,10 +156,7 @@ def handleLine (j : Json) : Except String Json := do
       | .ok v => v.getBool?
       | .error _ => pure false
     let cfg ← decCfg (← field j "cfg")
-    let vars ← match j.getObjVal? "vars" with
-      | .ok .null => pure none
-      | .ok v => do pure (some (← decPV.decPVKvs v))
-      | .error _ => pure none
+    let vars ← decVars j
     let frames ← (← (← field j "frames").getArr?).toList.mapM decFrame
     let (tbl, tr) := match client with
       | "ot" => (Tables.wsTypesAsyncOT, WsClientOT.run tracer Tables.wsTypesAsyncOT Tables.wsSubprotocolAsyncOT cfg vars frames)
@@ -129,6 +173,7 @@ def handleLine (j : Json) : Except String Json := do
       ("trig", Json.mkObj [
         ("falsyNextData", GqlWs.trigFalsyNextData cfg vars frames),
         ("binaryNotUtf8", GqlWs.trigBinaryNotUtf8 cfg vars frames),
+        ("varsNeedJsonableDefault", GqlWs.trigVarsNeedJsonableDefault cfg vars frames),
         ("extraHeadersKwarg", GqlWs.trigExtraHeadersKwarg cfg)]),
       ("connect_accepted", connectAccepted)])
   | "method" =>
@@ -156,8 +201,43 @@ def handleLine (j : Json) : Except String Json := do
       ("body", Json.mkObj [("queryTarget", b.queryTarget), ("varsTarget", b.varsTarget), ("loopTarget", b.loopTarget),
         ("callQuery", b.callQuery), ("callVars", b.callVars), ("callKwargs", b.callKwargs), ("yieldArg", b.yieldArg),
         ("opName", b.opName)]),
+      ("yieldValue", match SubMethod.yieldValue b (SubMethod.initEnv params args) with
+        | some .item => "item" | some (.arg _) => "arg" | none => "NameError" | some _ => "other"),
       ("events", Json.arr (encEvents t tr.events).toArray),
       ("outcome", encOutcome tr.outcome)])
+  | "session" | "schedule" =>
+    -- one client object, many subscriptions sharing dict objects (Model/WsClientHeap.lean)
+    let client ← fieldStr j "client"
+    let tracer ← match j.getObjVal? "tracer" with
+      | .ok v => v.getBool?
+      | .error _ => pure false
+    let store ← (← (← field j "store").getArr?).toList.mapM decKvs
+    let c ← field j "ctor"
+    let wsUrl ← fieldStr c "wsUrl"
+    let wsHeaders ← optNatField c "headers"
+    let wsOrigin ← optStrField c "origin"
+    let initPayload ← optNatField c "init"
+    let ctor : WsHeap.CtorArgs := { wsUrl, wsHeaders, wsOrigin, initPayload }
+    let steps ← (← (← field j "steps").getArr?).toList.mapM decStep
+    let (v, exec, tbl) := variantOf client tracer
+    let t := (Types.ofTable tbl).getD GqlWs.proto
+    match WsHeap.construct store ctor with
+    | none => pure (Json.mkObj [("ill_formed", "constructor")])
+    | some (s0, cl) =>
+      let (sEnd, clEnd, obs) : WsHeap.Store × WsHeap.ClientObj × List (Option WsHeap.Obs) :=
+        if op == "session" then WsHeap.runSeqH v exec s0 cl steps
+        else
+          let sched := match (j.getObjVal? "sched") with
+            | .ok (.arr a) => a.toList.filterMap fun x => x.getNat?.toOption
+            | _ => []
+          let w := WsHeap.runSchedule v exec (WsHeap.startW s0 cl steps) sched
+          (w.store, w.client, w.tasks.map fun ph => match ph with | .done o => o | _ => none)
+      pure (Json.mkObj [
+        ("client", Json.mkObj [("wsHeaders", cl.wsHeaders), ("fresh", Json.bool (cl.wsHeaders ≥ store.length)),
+          ("same_after", Json.bool (clEnd == cl))]),
+        ("known", s0.length),
+        ("store", Json.arr ((sEnd.take s0.length).map fun o => enc (.obj o)).toArray),
+        ("obs", Json.arr (obs.map (encObs t)).toArray)])
   | "accepts" =>
     let names ← (← (← field j "names").getArr?).toList.mapM (·.getStr?)
     pure (Json.bool (WsConnect.acceptsNames Tables.wsConnectAccepted names))
